@@ -1,12 +1,9 @@
-(* C16  Only configured or permitted neighbours get a session, set up right:
-   the negotiation part (mirror-image parameters; a feature is in force iff
-   both advertised it).  PARTIAL: accept_connection, PeerParams and
-   delete-on-disconnect are not modelled; IpNet::contains is modelled and tied
-   to the code but its bit-level theorem is not proved here.
+(* C16  Only configured or permitted neighbours get a session, set up right.
    Statements only: each theorem is closed by [exact], pinned by [Check] and
    followed by [Print Assumptions]. *)
 From Coq Require Import List NArith Bool.
-From RB Require Import Base.Val Model.Caps Model.Fsm Model.Negotiate Spec.NegotiateSpec Proofs.Negotiate.
+From RB Require Import Base.Val Model.Caps Model.Fsm Model.Negotiate Spec.NegotiateSpec
+                       Proofs.Negotiate Proofs.IpNet.
 Import ListNotations.
 Open Scope N_scope.
 
@@ -54,24 +51,81 @@ Check graceful_restart_mirror :
   forall (l r : list cap), same_set (gr_fams (negotiate_gr l r)) (gr_fams (negotiate_gr r l)).
 Print Assumptions graceful_restart_mirror.
 
-(* (5) Finding C16-2 (open): with duplicate ADD-PATH entries the FSM's effective send-max exceeds 1 for a negotiated family whose add-path send direction is not in force in the codec. *)
-Theorem send_max_without_addpath_tx_refuted :
-  exists (smax : list (N * N)) (l r : list cap) (f : N),
-    has_mp l f && has_mp r f = true /\ 1 < driver_max smax l r f
-    /\ neg_family l r f = Some (false, false).
-Proof. exact C16_send_max_without_addpath_tx_refuted. Qed.
-Check send_max_without_addpath_tx_refuted :
-  exists (smax : list (N * N)) (l r : list cap) (f : N),
-    has_mp l f && has_mp r f = true /\ 1 < driver_max smax l r f
-    /\ neg_family l r f = Some (false, false).
-Print Assumptions send_max_without_addpath_tx_refuted.
+(* (5) The driver's effective send-max and the codec agree (finding C16-2
+   repaired): more than one path is sent for a family only where add-path send
+   is in force in PeerCodec::negotiate; where it is, the configured send-max
+   applies; where the family or the send direction is not in force it is 1. *)
+Theorem send_max_iff_addpath_tx :
+  forall (smax : list (N * N)) (l r : list cap) (f : N),
+    (1 < driver_max smax l r f ->
+       (exists rx, neg_family l r f = Some (rx, true)) /\ driver_max smax l r f = configured_max smax f)
+    /\ ((exists rx, neg_family l r f = Some (rx, true)) -> driver_max smax l r f = configured_max smax f)
+    /\ (neg_family l r f = None \/ (exists rx, neg_family l r f = Some (rx, false)) -> driver_max smax l r f = 1).
+Proof. exact C16_send_max_iff_addpath_tx. Qed.
+Check send_max_iff_addpath_tx :
+  forall (smax : list (N * N)) (l r : list cap) (f : N),
+    (1 < driver_max smax l r f ->
+       (exists rx, neg_family l r f = Some (rx, true)) /\ driver_max smax l r f = configured_max smax f)
+    /\ ((exists rx, neg_family l r f = Some (rx, true)) -> driver_max smax l r f = configured_max smax f)
+    /\ (neg_family l r f = None \/ (exists rx, neg_family l r f = Some (rx, false)) -> driver_max smax l r f = 1).
+Print Assumptions send_max_iff_addpath_tx.
 
-(* (6) Finding C16-3 (open): an LLGR capability naming a family twice can leave LLGR in force at one end only. *)
-Theorem llgr_mirror_refuted :
+(* (6) LLGR is in force for the same families at both ends, for all capability lists (finding C16-3 repaired). *)
+Theorem llgr_mirror :
+  forall (l r : list cap), same_set (llgr_fams (negotiate_llgr l r)) (llgr_fams (negotiate_llgr r l)).
+Proof. exact C16_llgr_mirror. Qed.
+Check llgr_mirror :
+  forall (l r : list cap), same_set (llgr_fams (negotiate_llgr l r)) (llgr_fams (negotiate_llgr r l)).
+Print Assumptions llgr_mirror.
+
+(* (7) IpNet::contains: for every prefix length up to the address width, IPv4
+   and IPv6, canonical or not, it does not panic and answers exactly "same
+   family and the address agrees with the prefix on its leading mask bits". *)
+Theorem contains_eq_bit_prefix :
+  forall (net : ipnet) (addr : ipaddr),
+    net_ok net -> addr_ok addr -> mask_of net <= width net ->
+    exists v, contains net addr = COk v /\ (v = true <-> inside net addr).
+Proof. exact C16_contains_eq_bit_prefix. Qed.
+Check contains_eq_bit_prefix :
+  forall (net : ipnet) (addr : ipaddr),
+    net_ok net -> addr_ok addr -> mask_of net <= width net ->
+    exists v, contains net addr = COk v /\ (v = true <-> inside net addr).
+Print Assumptions contains_eq_bit_prefix.
+
+(* (8) A prefix length above the width (which FromStr, the only constructor
+   used for dynamic-neighbour prefixes, rejects: it accepts 0..=32 / 0..=128;
+   IpNet::new does not check) never answers "inside": the result is false or
+   a slice-index panic, and it is the panic on every address equal to the
+   prefix's own octets. *)
+Theorem contains_beyond_width :
+  forall (w : nat) (a b : list N) (mask : N),
+    length a = w -> length b = w -> 8 * N.of_nat w < mask ->
+    (contains_octets a b mask = CPanic \/ contains_octets a b mask = COk false)
+    /\ contains_octets a a mask = CPanic.
+Proof. exact C16_contains_beyond_width. Qed.
+Check contains_beyond_width :
+  forall (w : nat) (a b : list N) (mask : N),
+    length a = w -> length b = w -> 8 * N.of_nat w < mask ->
+    (contains_octets a b mask = CPanic \/ contains_octets a b mask = COk false)
+    /\ contains_octets a a mask = CPanic.
+Print Assumptions contains_beyond_width.
+
+(* (9) Record of finding C16-2 (repaired): the any-entry filter PeerFsm::process used before keeps a send-max of 8 for a family whose add-path send is not in force. *)
+Theorem send_max_any_filter_refuted :
+  exists (smax : list (N * N)) (l r : list cap) (f : N),
+    In (f, 8) (effective_max_any smax l r) /\ neg_family l r f = Some (false, false).
+Proof. exact C16_send_max_any_filter_refuted. Qed.
+Check send_max_any_filter_refuted :
+  exists (smax : list (N * N)) (l r : list cap) (f : N),
+    In (f, 8) (effective_max_any smax l r) /\ neg_family l r f = Some (false, false).
+Print Assumptions send_max_any_filter_refuted.
+
+(* (10) Record of finding C16-3 (repaired): walking every local LLGR entry (no first-entry rule) leaves LLGR in force at one end only. *)
+Theorem llgr_all_entries_refuted :
   exists (l r : list cap),
-    ~ same_set (llgr_fams (negotiate_llgr l r)) (llgr_fams (negotiate_llgr r l)).
-Proof. exact C16_llgr_mirror_refuted. Qed.
-Check llgr_mirror_refuted :
+    ~ same_set (negotiate_llgr_all_entries l r) (negotiate_llgr_all_entries r l).
+Proof. exact C16_llgr_all_entries_refuted. Qed.
+Check llgr_all_entries_refuted :
   exists (l r : list cap),
-    ~ same_set (llgr_fams (negotiate_llgr l r)) (llgr_fams (negotiate_llgr r l)).
-Print Assumptions llgr_mirror_refuted.
+    ~ same_set (negotiate_llgr_all_entries l r) (negotiate_llgr_all_entries r l).
+Print Assumptions llgr_all_entries_refuted.
